@@ -506,3 +506,114 @@ Proof.
   - intros (c & -> & [L1 L2] & ->).
     destruct (N.leb_spec 97 c); destruct (N.leb_spec c 122); cbn [andb]; try lia. reflexivity.
 Qed.
+
+(* ---------- verification modes ---------- *)
+From Coq Require Import String.
+Lemma verify_default_is_match :
+  load_verification None = Ok VMatch /\ load_verification (Some (s_ "match")) = Ok VMatch.
+Proof. split; reflexivity. Qed.
+
+Lemma load_verification_spec v m :
+  load_verification v = Ok m <->
+  (v = None /\ m = VMatch) \/ (v = Some (s_ "match") /\ m = VMatch) \/ (v = Some (s_ "none") /\ m = VNone) \/
+  (v = Some (s_ "parse-error") /\ m = VParseError) \/ (v = Some (s_ "no-parse-error") /\ m = VNoParseError).
+Proof.
+  split.
+  - destruct v as [s|]; cbn [load_verification].
+    + destruct (str_eqb s (s_ "match")) eqn:E1; [apply str_eqb_eq in E1; subst; intro H; inversion H; tauto|].
+      destruct (str_eqb s (s_ "none")) eqn:E2; [apply str_eqb_eq in E2; subst; intro H; inversion H; tauto|].
+      destruct (str_eqb s (s_ "parse-error")) eqn:E3; [apply str_eqb_eq in E3; subst; intro H; inversion H; tauto|].
+      destruct (str_eqb s (s_ "no-parse-error")) eqn:E4; [apply str_eqb_eq in E4; subst; intro H; inversion H; tauto|].
+      discriminate.
+    + intro H; inversion H; tauto.
+  - intros [[-> ->]|[[-> ->]|[[-> ->]|[[-> ->]|[-> ->]]]]]; reflexivity.
+Qed.
+
+Lemma load_verification_result v : (exists m, load_verification v = Ok m) \/ load_verification v = Err EInvalidFm.
+Proof.
+  destruct v as [s|]; cbn [load_verification]; [|left; eexists; reflexivity].
+  repeat match goal with |- context [if ?b then _ else _] => destruct b; [left; eexists; reflexivity|] end.
+  right; reflexivity.
+Qed.
+
+Section QuestionProofs.
+  Variable SK : Type.
+  Variable parse_priv : str -> option SK.
+  Variable rsa_dec : SK -> bytes -> option bytes.
+  Variable gcm_open : bytes -> bytes -> option bytes.
+  Variable b64_dec : str -> option bytes.
+  Variable run : str -> str.
+  Notation qv := (question_verify SK parse_priv rsa_dec gcm_open b64_dec run verify_choice).
+
+  Definition choice_type (t : atype) : Prop := t = SingleChoice \/ t = MultipleChoice.
+
+  (* an unsealed choice question under match verification is accepted exactly
+     when its answer denotes marks and these are precisely the matching choices *)
+  Lemma question_verify_match_choice_iff ignore privs f is_src outs gen perrs :
+    sealed f = [] -> choice_type (fm_type f) ->
+    (qv ignore privs VMatch f is_src outs gen perrs = Ok tt <->
+     answer f <> [] /\ exists marks, answer_marks (fm_type f) (answer f) = Ok marks /\ marks_exact marks outs gen).
+  Proof.
+    destruct f as [ty a s]. cbn [sealed fm_type answer]. intros -> CT.
+    unfold question_verify, answer_text. cbn [sealed fm_type answer is_nil negb andb].
+    rewrite andb_false_r. cbn [andb].
+    destruct a as [|a0 a]; cbn [is_nil].
+    - split; [discriminate|]. intros [H _]. congruence.
+    - destruct (answer_marks ty (a0 :: a)) as [marks|e] eqn:AM.
+      + assert (R : match ty with SingleChoice | MultipleChoice => verify_choice marks outs gen
+                                  | TextAnswer => verify_text run is_src gen (a0 :: a) end = verify_choice marks outs gen)
+          by (destruct CT as [-> | ->]; reflexivity).
+        rewrite R, verify_choice_iff. split.
+        * intro H. split; [discriminate|]. exists marks. split; [reflexivity|exact H].
+        * intros [_ (m' & E & H)]. inversion E; subst. exact H.
+      + split; [discriminate|]. intros [_ (m' & E & _)]. discriminate.
+  Qed.
+
+  (* verification: none accepts every unsealed question whose answer is well formed *)
+  Lemma question_verify_none_iff ignore privs f is_src outs gen perrs :
+    sealed f = [] ->
+    (qv ignore privs VNone f is_src outs gen perrs = Ok tt <->
+     answer f <> [] /\ exists marks, answer_marks (fm_type f) (answer f) = Ok marks).
+  Proof.
+    destruct f as [ty a s]. cbn [sealed fm_type answer]. intros ->.
+    unfold question_verify, answer_text. cbn [sealed fm_type answer is_nil negb andb].
+    rewrite andb_false_r. cbn [andb].
+    destruct a as [|a0 a]; cbn [is_nil].
+    - split; [discriminate|]. intros [H _]. congruence.
+    - destruct (answer_marks ty (a0 :: a)) as [marks|e].
+      + split; [intros _; split; [discriminate|eexists; reflexivity]|reflexivity].
+      + split; [discriminate|]. intros [_ (m' & E)]. discriminate.
+  Qed.
+End QuestionProofs.
+
+(* ---------- histories: Verify is a function of the question ---------- *)
+Section HistoryProofs.
+  Variable SK : Type.
+  Variable parse_priv : str -> option SK.
+  Variable rsa_dec : SK -> bytes -> option bytes.
+  Variable gcm_open : bytes -> bytes -> option bytes.
+  Variable b64_dec : str -> option bytes.
+  Variable run : str -> str.
+  Notation v1 := (verify_one SK parse_priv rsa_dec gcm_open b64_dec run).
+  Notation vh := (verify_history SK parse_priv rsa_dec gcm_open b64_dec run).
+
+  Lemma verify_history_acc qs : forall acc,
+    fold_left (fun verdicts q => verdicts ++ [v1 q]) qs acc = acc ++ map v1 qs.
+  Proof.
+    induction qs as [|q t IH]; intro acc; cbn [fold_left map]; [rewrite app_nil_r; reflexivity|].
+    rewrite IH, <- app_assoc. reflexivity.
+  Qed.
+
+  Lemma verify_history_is_map qs : vh qs = map v1 qs.
+  Proof. unfold verify_history. rewrite verify_history_acc. reflexivity. Qed.
+
+  (* the verdict of a question does not depend on what was verified before or after it,
+     nor on how often: it is its verdict when verified alone *)
+  Lemma verify_history_position pre q post :
+    nth_error (vh (pre ++ q :: post)) (List.length pre) = Some (v1 q) /\ vh [q] = [v1 q].
+  Proof.
+    split; [|reflexivity].
+    rewrite verify_history_is_map, map_app, nth_error_app2 by (rewrite map_length; apply le_n).
+    rewrite map_length, Nat.sub_diag. reflexivity.
+  Qed.
+End HistoryProofs.
